@@ -59,15 +59,26 @@ func _newSubordinateEnvWithBinds(outer *Env, binds_mt types.MalType, exprs_mt ty
 		var varargs bool
 		i := 0
 		for ; i < len(binds); i++ {
-			if types.Q[types.Symbol](binds[i]) && binds[i].(types.Symbol).Val == "&" {
-				env.data[binds[i+1].(types.Symbol).Val] = types.List{Val: exprs[i:]}
+			bind, ok := binds[i].(types.Symbol)
+			if !ok {
+				return nil, lisperror.NewLispError(fmt.Errorf("cannot use '%T' as parameter name", binds[i]), nil)
+			}
+			if bind.Val == "&" {
+				if i+1 >= len(binds) {
+					return nil, lisperror.NewLispError(errors.New("missing parameter name after '&'"), nil)
+				}
+				rest, ok := binds[i+1].(types.Symbol)
+				if !ok {
+					return nil, lisperror.NewLispError(fmt.Errorf("cannot use '%T' as parameter name", binds[i+1]), nil)
+				}
+				env.data[rest.Val] = types.List{Val: exprs[i:]}
 				varargs = true
 				break
 			} else {
 				if i == len(exprs) {
 					return nil, lisperror.NewLispError(fmt.Errorf("too few arguments passed (%d binds, %d arguments passed)", len(binds), len(exprs)), nil)
 				}
-				env.data[binds[i].(types.Symbol).Val] = exprs[i]
+				env.data[bind.Val] = exprs[i]
 			}
 		}
 		if !varargs && len(exprs) != i {
